@@ -64,7 +64,10 @@ def parse_body(body, template):
         return marker, None
     try:
         j = json.loads(rest)
-        return marker, {"id": j["id"] if j["has_id"] else None, "data": j["tok"] if j["has_data"] else None}
+        ident = j["id"] if j["has_id"] else None
+        if ident is not None and not isinstance(ident, str):
+            ident = tagged(ident)       # the template saw a value that is not a str (42 is not '42')
+        return marker, {"id": ident, "data": j["tok"] if j["has_data"] else None}
     except Exception:
         return "<<unparsable-render>>" + text, None
 
@@ -126,6 +129,11 @@ def tree_to_model(tree, sbx):
     return {"d": [[cps(sbx[1:]), conv(tree)]]}
 
 
+def tagged(v):
+    """text form of a value that is NOT a str: the type is part of it (42 and '42' are different lookup values)"""
+    return "\x00" + type(v).__name__ + ":" + repr(v)
+
+
 # ------------------------------------------------------------------ transform tabulation
 def _chain(spec):
     import sys, os
@@ -181,7 +189,7 @@ def transform_steps(spec, req):
     for v in candidate_values(req):
         try:
             r = f(v)
-            rows.append([cps(v), cps(r) if isinstance(r, str) else cps(repr(r))])
+            rows.append([cps(v), cps(r) if isinstance(r, str) else cps(tagged(r))])
         except Exception:
             rows.append([cps(v), None])
     return [["table", rows]]
@@ -220,7 +228,8 @@ def seen_to_model(o):
     if oc is not None and oc[0] == "served":
         ctx = oc[3]
         oc = ["served", cps(oc[1] or ""), cps(oc[2] if oc[2] is not None else ""),
-              None if ctx is None else {"id": ocps(ctx["id"]), "data": ocps(ctx["data"])}]
+              None if ctx is None else {"id": ocps(ctx["id"] if (ctx["id"] is None or isinstance(ctx["id"], str))
+                                                 else tagged(ctx["id"])), "data": ocps(ctx["data"])}]
     return {"accepted": o["accepted"], "calls": calls, "opens": [cps(p) for p in o["opens"]], "outcome": oc}
 
 
